@@ -2367,8 +2367,13 @@ class TaskPool:
 
         if not itask.state.is_queued:
             # queue it if limiting
+            # (but not if it is already on its way to run now: triggered
+            # again before the first trigger was acted on)
             active, _ = self.count_active_tasks()
-            if self.task_queue_mgr.push_task_if_limited(itask, active):
+            if (
+                itask not in self.tasks_to_trigger_now
+                and self.task_queue_mgr.push_task_if_limited(itask, active)
+            ):
                 itask.state_reset(is_queued=True)
                 self.data_store_mgr.delta_task_state(itask)
 
